@@ -7,7 +7,7 @@ LEVEL = "exploration"
 RULE = ("tank family R-p1-J1-[tank link]-T(-p3-J2): tank shape {cylinder, volume curve wider than the limits, volume curve ending "
         "at max_level} x init {mid, near min, near max} x tank link {pipe, reversed pipe, CV into tank, CV out of tank, pump into "
         "tank} x second tank link {no, yes} x demand pattern {fill, drain, fill-then-drain, saw-tooth} x hydraulic step {1h, 15min} x "
-        "tank leak {no, yes}, fully crossed (thorough adds diameters, limits and a second tank); report 'ALL'. oracle on consecutive "
+        "tank leak {no, yes}, fully crossed (thorough adds diameters, limits and a second tank); run + geometry edit (curve points in place, new curve, diameter) + reset + second run (judged); report 'ALL'. oracle on consecutive "
         "solved steps: V(l_{i+1})-V(l_i) = demand_i*dt; level_0 = init; limits with 2 s of flow slack; at min no discharge, at max no "
         "filling. non-trivial: the tank level changed by > 1 cm and (reached a limit or reversed direction)")
 
@@ -73,6 +73,15 @@ def cases(tier):
                          for k in range(10)]
         s["id"] = dict(s["id"], user_controls_priority=prio)
         out.append(s)
+    # edit-then-rerun: the model is simulated (and the tank volume read through the API), the tank geometry is edited - the
+    # points of its volume curve in place, a new curve assigned, or the diameter of a cylinder - the model is reset and
+    # simulated again; the second run is judged with the edited geometry
+    for shape, init, tlink, pat in itertools.product(("cyl", "vc_wide", "vc_tight"), ("mid", "min", "max"), ("pipe", "cv_in"), sorted(PATTERNS)):
+        for ed in (("diameter",) if shape == "cyl" else ("points_larger", "points_smaller", "new_curve")):
+            s = tank_spec(shape, init, tlink, False, pat, 3600, False)
+            s["edit"] = ed
+            s["id"] = dict(s["id"], edit=ed)
+            out.append(s)
     if tier == "thorough":
         for shape, init, tlink, pat, hyd, diam, lim, two in itertools.product(
                 ("cyl", "vc_wide", "vc_tight"), ("mid", "min", "max"), ("pipe", "rpipe", "cv_in", "cv_out", "pump_in"),
@@ -145,8 +154,36 @@ def check_tanks(s, r, viol, counts):
     return moved, limit
 
 
+def apply_edit(wn, s):
+    s = clone(s)
+    tk = node(s, "T")
+    t = wn.get_node("T")
+    t.get_volume()                      # a reader of the geometry between the run and the edit
+    ed = s["edit"]
+    if ed == "diameter":
+        t.diameter = 8.0; tk["diam"] = 8.0
+    else:
+        f = 0.4 if ed == "points_smaller" else 2.5
+        tk["vcurve"] = [[l, v * f] for l, v in tk["vcurve"]]
+        if ed == "new_curve":
+            wn.add_curve("vc_new", "VOLUME", [tuple(p) for p in tk["vcurve"]])
+            t.vol_curve_name = "vc_new"
+        else:
+            wn.get_curve(t.vol_curve_name).points = [tuple(p) for p in tk["vcurve"]]
+    return s
+
+
 def run_case(s):
-    r = simulate(s)
+    if s.get("edit"):
+        wn = build(s)
+        r0 = simulate(s, wn=wn)
+        if r0.error:
+            return {"viol": [], "nontrivial": False, "outcome": "not-converged", "counts": {"not_converged": 1}}
+        s = apply_edit(wn, s)
+        wn.reset_initial_values()
+        r = simulate(s, wn=wn)
+    else:
+        r = simulate(s)
     if r.error:
         return {"viol": [], "nontrivial": False, "outcome": "not-converged", "counts": {"not_converged": 1}}
     viol, counts = [], {}
@@ -155,5 +192,8 @@ def run_case(s):
     d = [1 if b > a + 1e-6 else (-1 if b < a - 1e-6 else 0) for a, b in zip(L, L[1:])]
     rev = 1 in d and -1 in d
     partial = any((t % s["opts"]["hyd"]) != 0 for t in r.times)
+    if s.get("edit"):
+        for v in viol:
+            v["key"] = "after-edit:%s:%s" % (s["edit"], v["key"]); v["what"] = "second run after the edit %s: %s" % (s["edit"], v["what"])
     return {"viol": viol, "nontrivial": bool(moved and (limit or rev)),
-            "outcome": "lim%d_rev%d_partial%d" % (limit, rev, partial), "counts": counts}
+            "outcome": "lim%d_rev%d_partial%d%s" % (limit, rev, partial, "_edited" if s.get("edit") else ""), "counts": counts}
